@@ -656,15 +656,15 @@ class ClientTls(Client):
             # ex.args[0] is always ex.errno for better compat
             if ex.args[0] in (ssl.SSL_ERROR_WANT_READ, ssl.SSL_ERROR_WANT_WRITE):
                 return None
-            elif ex.args[0] in (errno.ECONNRESET,
-                                errno.ENETRESET,
-                                errno.ENETUNREACH,
-                                errno.EHOSTUNREACH,
-                                errno.ENETDOWN,
-                                errno.EHOSTDOWN,
-                                errno.ETIMEDOUT,
-                                errno.ECONNREFUSED,
-                                ssl.SSLEOFError):
+            elif (isinstance(ex, ssl.SSLEOFError) or
+                  ex.args[0] in (errno.ECONNRESET,
+                                 errno.ENETRESET,
+                                 errno.ENETUNREACH,
+                                 errno.EHOSTUNREACH,
+                                 errno.ENETDOWN,
+                                 errno.EHOSTDOWN,
+                                 errno.ETIMEDOUT,
+                                 errno.ECONNREFUSED)):
                 emsg = ("socket.error = {0}: OutgoerTLS at {1} receiving"
                         " from {2}\n".format(ex, self.ca, self.ha))
                 console.profuse(emsg)
@@ -705,15 +705,15 @@ class ClientTls(Client):
             # ex.args[0] is always ex.errno for better compat
             if ex.args[0] in (ssl.SSL_ERROR_WANT_READ, ssl.SSL_ERROR_WANT_WRITE):
                 result = 0
-            elif ex.args[0] in (errno.ECONNRESET,
-                                errno.ENETRESET,
-                                errno.ENETUNREACH,
-                                errno.EHOSTUNREACH,
-                                errno.ENETDOWN,
-                                errno.EHOSTDOWN,
-                                errno.ETIMEDOUT,
-                                errno.ECONNREFUSED,
-                                ssl.SSLEOFError):
+            elif (isinstance(ex, ssl.SSLEOFError) or
+                  ex.args[0] in (errno.ECONNRESET,
+                                 errno.ENETRESET,
+                                 errno.ENETUNREACH,
+                                 errno.EHOSTUNREACH,
+                                 errno.ENETDOWN,
+                                 errno.EHOSTDOWN,
+                                 errno.ETIMEDOUT,
+                                 errno.ECONNREFUSED)):
                 emsg = ("socket.error = {0}: OutgoerTLS at {1} while sending "
                         "to {2} \n".format(ex, self.ca, self.ha))
                 console.profuse(emsg)
